@@ -39,6 +39,10 @@ pub struct Scn {
     /// a <defaults> block ahead of the siblings adds offsets to rects and circles
     #[serde(default)]
     pub defaults: bool,
+    /// configuration (limits at or below their defaults but ample for the document;
+    /// none of it may change geometry or make resolution depend on sibling order)
+    #[serde(default)]
+    pub cfg: Option<Cfg>,
 }
 
 fn five() -> usize {
@@ -624,6 +628,20 @@ impl Engine for C10 {
             orders: None,
             exhaustive_upto: if tier == Tier::Thorough { 6 } else { 5 },
             defaults: index % 7 == 3,
+            cfg: if index % 3 == 1 {
+                let mut c = Cfg::default();
+                c.add_auto_styles = false;
+                c.loop_limit = 3 + w.below(6) as u32;
+                c.depth_limit = 12 + w.below(88) as u32;
+                c.var_limit = 64 + w.below(900) as u32;
+                c.debug = w.chance(1, 3);
+                c.add_metadata = w.chance(1, 3);
+                c.use_local_styles = w.chance(1, 3);
+                c.seed = w.below(100);
+                Some(c)
+            } else {
+                None
+            },
         })
         .unwrap()
     }
@@ -637,7 +655,7 @@ impl Engine for C10 {
                 return res;
             }
         };
-        let mut cfg = Cfg::default();
+        let mut cfg = scn.cfg.clone().unwrap_or_default();
         cfg.add_auto_styles = false;
         let (orders, exhaustive) = orders_of(&scn);
         if exhaustive {
